@@ -353,3 +353,76 @@ fn verif_native_breakpoints() {
     }
     verif_out(&format!("VERIF-NATIVE name={} evaluated={} distinct={}", name, evaluated, evaluated));
 }
+
+const P7: &str = ".orig x3000\nstart add r0,r0,#1\n.break\nmid add r0,r0,#2\nhalt\nlast .fill x0\n";
+const P8: &str = ".orig xFDFC\na add r0,r0,#1\nb halt\nc .fill #1\nd .fill #2\ne .fill #3\nfar .fill #4\n";
+const P9: &str = "ld r1, t\njmp r1\nt .fill x2000\n";
+
+/// C13: 3 programs (default origin with a .break; origin xFDFC whose labels straddle xFE00; a PC that has strayed to x2000)
+/// x every location spelling below (absolute addresses at the boundaries, each label with offsets 0, +-1, +-5, +32767,
+/// -32768, PC offsets likewise, offsets that do not fit 16 bits) x { move LOC 7, goto LOC, break add LOC, break remove LOC,
+/// print LOC, assembly LOC }: compared with the machine and breakpoint list just before the command, the command changes
+/// exactly the named word / the PC / the list entry when the MATHEMATICAL address lies in [origin, xFE00) and nothing at all
+/// otherwise. Plus `move rN V` for all 8 registers x 4 values, `registers`, `break list`.
+#[test]
+fn verif_native_confined_writes() {
+    let name = "verif_native_confined_writes";
+    let mut evaluated = 0u64;
+    let mut accepted = 0u64;
+    // (program, prefix, origin, pc after prefix, labels)
+    let p7l: Vec<(&str, i64)> = vec![("start", 0x3000), ("mid", 0x3001), ("last", 0x3003)];
+    let p8l: Vec<(&str, i64)> = vec![("a", 0xFDFC), ("d", 0xFDFF), ("e", 0xFE00), ("far", 0xFE01)];
+    let p9l: Vec<(&str, i64)> = vec![("t", 0x3002)];
+    let cases: Vec<(&'static str, &str, i64, i64, Vec<(&str, i64)>)> = vec![
+        (P7, "", 0x3000, 0x3000, p7l.clone()), (P7, "step into 1; ", 0x3000, 0x3001, p7l),
+        (P8, "", 0xFDFC, 0xFDFC, p8l), (P9, "step into 2; ", 0x3000, 0x2000, p9l)];
+    let offs: [i64; 8] = [0, 1, -1, 5, -5, 32767, -32768, 3];
+    for (prog, prefix, orig, pc, labels) in cases {
+        // (spelling, mathematical address or None when the spelling itself must be refused)
+        let mut locs: Vec<(String, Option<i64>)> = Vec::new();
+        for a in [0i64, 1, 0x2000, 0x2FFF, 0x3000, 0x3001, 0x3003, 0x3004, 0x7FFF, 0x8000, 0xFDFB, 0xFDFC, 0xFDFF, 0xFE00, 0xFE01, 0xFFFF] { locs.push((format!("x{:04X}", a), Some(a))); }
+        locs.push(("x10000".into(), None));
+        for (l, a) in &labels { for o in offs {
+            locs.push((if o == 0 { l.to_string() } else if o > 0 { format!("{}+{}", l, o) } else { format!("{}{}", l, o) }, Some(a + o)));
+        } locs.push((format!("{}+65536", l), None)); locs.push((format!("{}-40000", l), None)); }
+        for o in offs { locs.push((if o == 0 { "^".to_string() } else { format!("^{}", o) }, Some(pc + o))); }
+        locs.push(("^40000".into(), None)); locs.push(("^-32769".into(), None)); locs.push(("nosuchlabel".into(), None));
+        let base_script = format!("{}exit", prefix);
+        let base = with_timeout(20, move || verif_catch(move || { init(); let mut e = build(prog, Some(&base_script)); e.run();
+            let b = crate::debugger::verif_native_debugger_probe::verif_breakpoints(e.debugger.as_ref().unwrap()); (e.state, b) }));
+        let (s0, b0) = match base { Some(Ok(x)) => x, _ => { verif_out(&format!("VERIF-COUNTEREXAMPLE name={} input=program {:?} script {:?} detail=session failed", name, prog, prefix)); std::process::exit(1); } };
+        let mut commands: Vec<(String, u8, Option<i64>)> = Vec::new();   // kind: 0 move mem, 1 goto, 2 break add, 3 break remove, 4 no effect, 5.. move reg
+        for (sp, addr) in &locs {
+            commands.push((format!("move {} 7", sp), 0, *addr)); commands.push((format!("goto {}", sp), 1, *addr));
+            commands.push((format!("break add {}", sp), 2, *addr)); commands.push((format!("break remove {}", sp), 3, *addr));
+            commands.push((format!("print {}", sp), 4, None)); commands.push((format!("assembly {}", sp), 4, None));
+        }
+        for r in 0..8i64 { for v in ["0", "xFFFF", "x8000", "#-1"] { commands.push((format!("move r{} {}", r, v), 5, Some(r * 0x10000 + match v { "0" => 0, "x8000" => 0x8000, _ => 0xFFFF }))); } }
+        commands.push(("registers".into(), 4, None)); commands.push(("break list".into(), 4, None));
+        for (cmd, kind, addr) in commands {
+            evaluated += 1;
+            let script = format!("{}{}; exit", prefix, cmd);
+            let s2 = script.clone();
+            let r = with_timeout(20, move || verif_catch(move || { init(); let mut e = build(prog, Some(&s2)); e.run();
+                let b = crate::debugger::verif_native_debugger_probe::verif_breakpoints(e.debugger.as_ref().unwrap()); (e.state, b) }));
+            let fail = |d: String| { verif_out(&format!("VERIF-COUNTEREXAMPLE name={} input=program {:?} script {:?} detail={}", name, prog, script, d)); std::process::exit(1); };
+            let (s1, b1) = match r { None => { fail("session does not terminate".to_string()); unreachable!() }, Some(Err(m)) => { fail(format!("panic: {}", m)); unreachable!() }, Some(Ok(x)) => x };
+            let valid = |a: Option<i64>| a.map_or(false, |a| a >= orig && a < 0xFE00);
+            let mut want = s0.clone();
+            let mut want_b = b0.clone();
+            match kind {
+                0 => if valid(addr) { want.mem[addr.unwrap() as usize] = 7; accepted += 1; },
+                1 => if valid(addr) { want.pc = addr.unwrap() as u16; accepted += 1; },
+                2 => if valid(addr) { let a = addr.unwrap() as u16; if !want_b.contains(&a) { want_b.push(a); want_b.sort(); } accepted += 1; },
+                3 => if valid(addr) { let a = addr.unwrap() as u16; want_b.retain(|x| *x != a); accepted += 1; },
+                5 => { let x = addr.unwrap(); want.reg[(x >> 16) as usize] = (x & 0xFFFF) as u16; accepted += 1; },
+                _ => (),
+            }
+            let what = if kind < 4 && !valid(addr) { format!("the location is outside [x{:04X}, xFE00) or malformed (mathematical address {:?}), yet ", orig, addr) } else { String::new() };
+            if let Some(d) = same_state(&s1, &want) { fail(format!("{}machine after the command differs from the expected one: {}", what, d)); }
+            if b1 != want_b { fail(format!("{}breakpoint list is {:04x?}, expected {:04x?}", what, b1, want_b)); }
+        }
+    }
+    assert!(accepted > 0 && accepted < evaluated, "degenerate enumeration");
+    verif_out(&format!("VERIF-NATIVE name={} evaluated={} distinct={}", name, evaluated, accepted));
+}
